@@ -34,8 +34,8 @@ pub(crate) const LOG_LEN: usize = 24;
 pub(crate) const RD_LEN: usize = 12;
 /// `rd`/`rdn`: the first RD_LEN bytes the chip answered (all Read operations, in order) -- what the status / register
 /// conversions (C17) are judged against
-pub(crate) struct SpiLog { pub n: usize, pub w: [[u8; 12]; LOG_LEN], pub wl: [usize; LOG_LEN], pub reads: usize, pub fail_at: usize, pub ops: usize, pub rd: [u8; RD_LEN], pub rdn: usize }
-pub(crate) static mut SPI: SpiLog = SpiLog { n: 0, w: [[0; 12]; LOG_LEN], wl: [0; LOG_LEN], reads: 0, fail_at: usize::MAX, ops: 0, rd: [0; RD_LEN], rdn: 0 };
+pub(crate) struct SpiLog { pub n: usize, pub w: [[u8; 12]; LOG_LEN], pub wl: [usize; LOG_LEN], pub reads: usize, pub fail_at: usize, pub ops: usize, pub rd: [u8; RD_LEN], pub rdn: usize, pub rd_at: [usize; LOG_LEN] }
+pub(crate) static mut SPI: SpiLog = SpiLog { n: 0, w: [[0; 12]; LOG_LEN], wl: [0; LOG_LEN], reads: 0, fail_at: usize::MAX, ops: 0, rd: [0; RD_LEN], rdn: 0, rd_at: [0; LOG_LEN] };
 
 /// optional SX127x register-file contract (A-chip: a configuration register holds the last value written to it and
 /// reads return it).  Off by default: reads are then arbitrary bytes.  Harnesses that need read-modify-write sequences
@@ -43,6 +43,21 @@ pub(crate) static mut SPI: SpiLog = SpiLog { n: 0, w: [[0; 12]; LOG_LEN], wl: [0
 pub(crate) struct RegFile { pub on: bool, pub r: [u8; 128], pub addr: u8 }
 pub(crate) static mut REGS: RegFile = RegFile { on: false, r: [0; 128], addr: 0 };
 
+/// SX127x: the byte the chip answered when register `addr` was read (single or burst read; the last read wins), from the logs
+pub(crate) fn reg_answer(addr: u8) -> Option<u8> {
+    let g = unsafe { &*(&raw const SPI) };
+    let mut v = None;
+    let mut k = 0;
+    while k < LOG_LEN {
+        if k < g.n && g.w[k][0] & 0x80 == 0 {
+            let end = if k + 1 < g.n { g.rd_at[k + 1] } else { g.rdn };
+            let a0 = g.w[k][0];
+            if addr >= a0 && ((addr - a0) as usize) < end - g.rd_at[k] && g.rd_at[k] + ((addr - a0) as usize) < RD_LEN { v = Some(g.rd[g.rd_at[k] + (addr - a0) as usize]); }
+        }
+        k += 1;
+    }
+    v
+}
 pub(crate) struct MockSpi;
 #[derive(Debug)]
 pub(crate) struct MockErr;
@@ -61,6 +76,7 @@ impl SpiDevice<u8> for MockSpi {
                             let mut i = 0;
                             while i < 12 { if i < b.len() { SPI.w[SPI.n][i] = b[i]; } i += 1; }
                             SPI.wl[SPI.n] = b.len();
+                            SPI.rd_at[SPI.n] = SPI.rdn;
                             SPI.n += 1;
                         }
                         if REGS.on && k == 0 && b.len() >= 1 {
